@@ -145,6 +145,30 @@ def run(ctx):
         it, used = account(evs)
         szw = [e for e in evs if e.kind in ('assign', 'incdec') and e.lhs == size_f]
         ctx.check(used.is_zero() and not szw, 'R2', 'move path', where(mv), 'delta used = %r, size writes %d' % (used, len(szw)), key='R2|move|changes accounting')
+        ins = [e for e in evs if e.kind == 'call' and e.q.endswith('::insert')]
+        ers = [e for e in evs if e.kind == 'call' and e.q.endswith('::erase')]
+        if ins or ers:
+            env = {}
+            for e in evs:
+                if e.kind == 'assign' and e.lhs[0] == 'var':
+                    env[e.lhs] = e.rhs
+
+            def res(t, d=0):
+                while t[0] in ('cast', 'conv'):
+                    t = t[2]
+                if t[0] == 'var' and t in env and d < 5:
+                    return res(env[t], d + 1)
+                return t
+            carried = False
+            for e in ins:
+                for x in ex.subterms(e.args[0]) if e.args else ():
+                    r = res(x) if x[0] == 'var' else x
+                    if r[0] == 'field' and r[2].endswith('::second'):
+                        base = [res(y) for y in ex.subterms(r[1]) if y[0] == 'var']
+                        if any(b[0] == 'call' and b[1].endswith('::find') for b in base):
+                            carried = True
+            ctx.check(len(ins) == 1 and len(ers) == 1 and carried, 'R2', 'move: the entry re-inserted under the new name carries the size of the entry erased', where(mv, ins[0].line if ins else None),
+                      '%d erase, %d insert, size carried over: %s' % (len(ers), len(ins), carried), key='R2|move|size carried')
 
     # ---- R3 read -----------------------------------------------------------------------------------------------------------
     ctx.rule('R3', 'read asks the disk for min(size, size_ - position) and advances the position by what was read', 1)
